@@ -511,12 +511,24 @@ fn enum_make(_tier: Tier, i: u64) -> Case {
     Case { g: raw_quaternary(dir, n, code, [0, 64, 192]), enc: (i % ENUM_P) as u8, salt: (i % 251) as u8, wmode: 0, float: (i / ENUM_P) % 2 == 1, nan: false, nan_anywhere: false }
 }
 
+/// libFuzzer entry / from-bytes generator: bring a decoded case into the domain of `strategy`
+pub fn fuzz_domain(c: &mut Case) -> bool {
+    c.g.sanitize(0, 16, 50, None);
+    c.wmode %= 3;
+    c.nan &= c.float;
+    c.nan_anywhere &= c.nan;
+    true
+}
+pub fn bytes_strategy(_tier: Tier) -> BoxedStrategy<Case> {
+    decoded_strategy(fuzz_domain)
+}
+
 pub fn property() -> Property {
     Property {
         id: "C12",
         rule: "random weighted multigraphs with loops and many equal weights (0..=9 nodes quick, 1-4 components, three weight ranges, i32 and exact f64) in Graph / StableGraph+MatrixGraph with vacancies / GraphMap / Csr; the element stream is checked structurally (nodes first in node_references order, every edge a distinct edge of the graph with that weight, acyclic, |V|-c edges) and its total weight compared with a naive Prim oracle that is itself cross-checked by exhaustive subset enumeration when m<=11; Prim checked on undirected storage for the first node's component; from_elements result compared with the stream; with f64 weights a quarter of the cases put NaN on every self-loop (never a forest edge) to exercise MinScored's NaN ordering in the heaps; non-trivial = >=2 components (n>=3) or at least one non-tree edge; sub-check mst/large: stars, paths, random trees and caterpillars of 2..=420 nodes (900 thorough) plus up to 60 random extra edges in Graph/StableGraph, oracle = sort-based Kruskal with its own union-find, non-trivial = more than 256 nodes; distinct by case fingerprint; bounded-exhaustive sub-check: every undirected graph on 1..=4 nodes and digraph on 1..=3 nodes (loops included) with every assignment of the weights {0,1,3} x 6 encodings, i32 and f64",
         assumptions: &["float weights are multiples of 0.25 (exact sums)"],
         both_profiles: false,
-        subs: vec![sub("mst/kruskal+prim", 1_500_000, 40_000_000, strategy, run), sub_enum("mst/all-small-weighted-graphs", enum_count, enum_make, run), sub("mst/large", 6_000, 50_000, big_strategy, run_big)],
+        subs: vec![sub_fuzz("mst/kruskal+prim", 1_500_000, 40_000_000, strategy, run, fuzz_domain), sub("mst/kruskal+prim-from-bytes", 400_000, 8_000_000, bytes_strategy, run), sub_enum("mst/all-small-weighted-graphs", enum_count, enum_make, run), sub("mst/large", 6_000, 50_000, big_strategy, run_big)],
     }
 }
